@@ -177,9 +177,13 @@ def gen_term_case(r, idx, wild=False, nops=None, kinds=None):
         k = r.pick(kinds) if kinds else r.below(34)
         if k < 9:
             lines.append("T 0 elem " + es.next())
+            if cur is not None:
+                cur = (cur[0] + 1, cur[1])
         elif k < 13:
             m = r.rng(0, 5)
             lines.append("T 0 str %d" % m + "".join(" " + es.next() for _ in range(m)))
+            if cur is not None:
+                cur = (cur[0] + m, cur[1])
         elif k < 14:
             if wild or any(re.match(r"T 0 (elem|str|oda|erase)", l) for l in lines):
                 lines.append("T 0 raw " + es.next())
@@ -188,7 +192,9 @@ def gen_term_case(r, idx, wild=False, nops=None, kinds=None):
         elif k < 21:
             if w == 0 and not wild:
                 continue
-            if wild and r.chance(1, 3):
+            if wild and cur is not None and r.chance(1, 3):
+                x, y = cur
+            elif wild and r.chance(1, 3):
                 x, y = r.below(15), r.below(9)
             else:
                 x, y = r.below(max(w, 1)), r.below(max(h, 1))
@@ -646,5 +652,55 @@ def gen_plain_case(r, idx):
     for b in bs:
         lines.append("# WANTE " + el((5, b, 0, 0), DEFAULT_ATTR))
     lines.append("M encode " + hexs(bs))
+    lines.append("END")
+    return lines
+
+
+def gen_keyseq_case(r, idx):
+    """key-shaped control sequences whose numbers sit on the boundaries of the
+    conversion to int and of the key tables"""
+    lines = ["CASE %d" % idx, "T 0 new 0", "T 0 arm"]
+    for _ in range(r.rng(1, 4)):
+        base = r.pick(KEYPAD + list(range(0, 30)))
+        n = r.pick([base, base, base + 256, base + 512, base + 65536, base + (1 << 32), base + (1 << 31),
+                    (1 << 31) - 1, (1 << 31), (1 << 63) - 1, (1 << 64) + base, r.below(100000)])
+        intro = r.pick([[27, 91], [27, 27, 91], [155]])
+        if r.chance(1, 2):
+            m = r.pick([-1, 1, 2, 5, 16, 17, 258, (1 << 32) + 2])
+            body = str(n).encode() + (b";" + str(m).encode() if m >= 0 else b"") + b"~"
+        else:
+            m = r.pick([-1, 2, 6, 262, (1 << 32) + 2])
+            body = str(n).encode() + (b";" + str(m).encode() if m >= 0 else b"") + bytes([r.pick(CSI_KEYS)])
+        pre = b""
+        if r.chance(1, 3):
+            # a truncated sequence (digits / separator already received) right before it
+            pre = bytes(r.pick([[27, 91], [155], [27, 79]])) + str(r.below(30)).encode() + (b";" if r.chance(1, 2) else b"")
+        lines.append("T 0 recv " + hexs(list(pre + bytes(intro) + body)))
+    lines.append("END")
+    return lines
+
+
+def gen_strings_case(r, idx):
+    """byte strings (NUL and high bytes included) through every text-taking
+    constructor, to_string, and concatenation"""
+    lines = ["CASE %d" % idx]
+
+    def rb(n):
+        return [r.pick([0, 0, 92, 27, 128, 255, r.below(256), r.rng(32, 126)]) for _ in range(n)]
+    for _ in range(4):
+        k = r.below(5)
+        if k == 0:
+            lines.append("M ofbytes " + hexs(rb(r.rng(0, 12))))
+        elif k == 1:
+            lines.append("M ofstd " + hexs(rb(r.rng(0, 12))))
+        elif k == 2:
+            lines.append("M ofstdattr %s %s" % (hexs(rb(r.rng(0, 12))), " ".join(map(str, wf_attr(r)))))
+        elif k == 3:
+            a = [el(wild_glyph(r) if r.chance(1, 3) else wf_glyph(r), wf_attr(r)) for _ in range(r.below(4))]
+            b = [el(wf_glyph(r), wf_attr(r)) for _ in range(r.below(4))]
+            lines.append("M concat %d %s %d %s" % (len(a), " ".join(a), len(b), " ".join(b)))
+        else:
+            a = [el(wf_glyph(r), wf_attr(r)) for _ in range(r.below(6))]
+            lines.append("M tostring %d %s" % (len(a), " ".join(a)))
     lines.append("END")
     return lines
